@@ -270,6 +270,9 @@ func writeReplay(prop string, fv FoundViolation, job *Job, cfg JobCfg, orig *Fou
 		name = name[:80]
 	}
 	dir := filepath.Join(verifRoot, "replays")
+	if d := os.Getenv("VERIF_OUT"); d != "" {
+		dir = filepath.Join(d, "replays")
+	}
 	os.MkdirAll(dir, 0o755)
 	path := filepath.Join(dir, fmt.Sprintf("%s-%s-%d.json", prop, name, fv.Seed))
 	b, _ := json.MarshalIndent(rf, "", " ")
